@@ -33,7 +33,7 @@ func drawBoolCase(t *rapid.T, f Family) *C01Case {
 	}
 	c.CT = rapid.SampledFrom(allClipTypes).Draw(t, "ct")
 	c.FR = rapid.SampledFrom(allFillRules).Draw(t, "fr")
-	c.Entry = rapid.IntRange(0, 3).Draw(t, "entry")
+	c.Entry = rapid.IntRange(0, 4).Draw(t, "entry")
 	nx := rapid.IntRange(0, 6).Draw(t, "nExtra")
 	for i := 0; i < nx; i++ {
 		c.Extra = append(c.Extra, P{X: rapid.Int64Range(-f.R, f.R).Draw(t, "ex"), Y: rapid.Int64Range(-f.R, f.R).Draw(t, "ey")})
@@ -79,6 +79,8 @@ func entryLabel(e int) string {
 		return "entry:engine-split-addpaths"
 	case 3:
 		return "entry:engine-reused"
+	case 4:
+		return "entry:engine-AddPath-one-by-one"
 	}
 	return "entry:BooleanOpPaths64"
 }
